@@ -16,6 +16,10 @@ def classPred (id : Nat) (c : Ch) : Bool :=
   | 1 => c.code == 32 || c.code == 9 || c.code == 13 || c.code == 10
   | 2 => true
   | 3 => c.code ≥ 128
+  | 4 => c.code != 10
+  | 5 => c.code != 13
+  | 6 => c.code == 13 || c.code == 97
+  | 7 => c.code == 10 || c.code == 9
   | _ => false
 
 structure Obs where
